@@ -204,3 +204,58 @@ def obj_of_px(p):
     if h == "o":
         return ("o", int(p[1]))
     raise ValueError(p)
+
+
+# ---------------------------------------------------------------- JSON round trip of abstract terms
+
+def tuple_ify(o):
+    """JSON turns tuples into lists; restore the abstract-term shape."""
+    if isinstance(o, list):
+        if o and isinstance(o[0], str) and o[0] in ("N", "b", "i", "f", "s", "y", "e", "l", "t", "q", "S", "F", "d", "I", "o"):
+            tag = o[0]
+            if tag in ("l", "t", "q", "S", "F"):
+                return (tag, [tuple_ify(x) for x in o[1]])
+            if tag == "d":
+                return (tag, [(tuple_ify(k), tuple_ify(v)) for k, v in o[1]])
+            if tag == "I":
+                return (tag, o[1], [(n, tuple_ify(v)) for n, v in o[2]])
+            return tuple(o)
+        if o and isinstance(o[0], str):  # a type term
+            k = o[0]
+            if k in ("enum", "cls", "td"):
+                return (k, o[1])
+            if k == "lit":
+                return (k, [tuple_ify(v) for v in o[1]])
+            if k == "tup":
+                return (k, [tuple_ify(v) for v in o[1]])
+            if k in ("dict", "map", "mmap"):
+                return (k, tuple_ify(o[1]), tuple_ify(o[2]))
+            return (k, tuple_ify(o[1]))
+        return [tuple_ify(x) for x in o]
+    return o
+
+
+
+
+def world_from_json(w):
+    out = {"classes": [], "enums": [[tuple_ify(v) for v in e] for e in w["enums"]]}
+    for c in w["classes"]:
+        c2 = dict(c)
+        c2["fields"] = []
+        for f in c["fields"]:
+            f2 = dict(f)
+            f2["ty"] = tuple_ify(f["ty"]) if f["ty"] is not None else None
+            f2["dflt"] = (f["dflt"][0], tuple_ify(f["dflt"][1])) if f["dflt"] is not None else None
+            c2["fields"].append(f2)
+        out["classes"].append(c2)
+    return out
+
+
+def case_from_json(case):
+    out = dict(case)
+    if "world" in out:
+        out["world"] = world_from_json(out["world"])
+    for k in ("x", "ty", "payload", "value"):
+        if k in out and out[k] is not None:
+            out[k] = tuple_ify(out[k])
+    return out
